@@ -330,6 +330,52 @@ func (s *BaseNodeService) verifyMessage(fsmInstance *state_machines.FSMInstance,
 	return nil
 }
 
+// participantIDOfRequest returns the id of the participant on whose behalf an FSM request is made
+func participantIDOfRequest(fsmReq interface{}) (int, bool) {
+	switch req := fsmReq.(type) {
+	case requests.SignatureProposalParticipantRequest:
+		return req.ParticipantId, true
+	case requests.DKGProposalCommitConfirmationRequest:
+		return req.ParticipantId, true
+	case requests.DKGProposalDealConfirmationRequest:
+		return req.ParticipantId, true
+	case requests.DKGProposalResponseConfirmationRequest:
+		return req.ParticipantId, true
+	case requests.DKGProposalMasterKeyConfirmationRequest:
+		return req.ParticipantId, true
+	case requests.DKGProposalConfirmationErrorRequest:
+		return req.ParticipantId, true
+	case requests.SignatureProposalConfirmationErrorRequest:
+		return req.ParticipantId, true
+	case requests.SigningBatchProposalStartRequest:
+		return req.ParticipantId, true
+	case requests.SigningProposalBatchPartialSignRequests:
+		return req.ParticipantId, true
+	}
+	return 0, false
+}
+
+// verifyRequestSender checks that the request was made by the participant it is made for.
+// The message signature proves who the sender is; without this check any participant could
+// confirm, decline or report errors in the name of another one.
+func (s *BaseNodeService) verifyRequestSender(fsmInstance *state_machines.FSMInstance, message storage.Message, fsmReq interface{}) error {
+	if s.GetSkipCommKeysVerification() {
+		return nil
+	}
+	participantID, ok := participantIDOfRequest(fsmReq)
+	if !ok {
+		return nil
+	}
+	senderID, err := fsmInstance.GetIDByUsername(message.SenderAddr)
+	if err != nil {
+		return fmt.Errorf("failed to GetIDByUsername: %w", err)
+	}
+	if senderID != participantID {
+		return fmt.Errorf("participant #%d (%s) cannot act on behalf of participant #%d", senderID, message.SenderAddr, participantID)
+	}
+	return nil
+}
+
 func (s *BaseNodeService) StartDKG(dto *dto.StartDkgDTO) error {
 	dkgRoundID := sha256.Sum256(dto.Payload)
 	message, err := s.buildMessage(hex.EncodeToString(dkgRoundID[:]), spf.EventInitProposal, dto.Payload)
@@ -760,6 +806,13 @@ func (s *BaseNodeService) processMessage(message storage.Message) (*types.Operat
 	fsmReq, err := types.FSMRequestFromMessage(message)
 	if err != nil {
 		return nil, fmt.Errorf("failed to get FSMRequestFromMessage:  %w", err)
+	}
+
+	// a participant can speak only for itself: the participant id inside the request must belong to the sender
+	if fsm.Event(message.Event) != spf.EventInitProposal {
+		if err := s.verifyRequestSender(fsmInstance, message, fsmReq); err != nil {
+			return nil, fmt.Errorf("failed to verifyRequestSender: %w", err)
+		}
 	}
 
 	resp, fsmDump, err := fsmInstance.Do(fsm.Event(message.Event), fsmReq)
